@@ -21,6 +21,7 @@ func evalC18(in []byte, srcOffs, tgtOffs, span int) (vs []*Violation, accepted b
 		c.Extra = map[string]any{"src": srcOffs, "tgt": tgtOffs, "span": span}
 		vs = append(vs, &Violation{Property: "C18", Site: site, Rule: rule, Class: class, Detail: detail, Case: c})
 	}
+	defer recoverTo4("AdjustOffs", add)
 	var u0 sipsp.PsipURI
 	if e, _ := sipsp.ParseURI(in, &u0); e != 0 {
 		return
